@@ -42,6 +42,7 @@ func init() {
 		Explain: "Decides the last sentence of C02 for every input and schedule — a member's status time only grows and an intent not newer than the applied one changes nothing — as shape facts of the two intent handlers: every write of memberState.statusLTime module-wide is in an intent handler (or initialises a freshly allocated member), every status/time write and every true result there is edge-dominated by msg.LTime > member.statusLTime, stores msg.LTime, and sits in the memberLock write section; plus the transition table, the intent buffer's strict newer-than test, and the push/pull conversion (+1 for synthetic leaves). Cross-replica agreement is not decided.",
 		Run:     runC02,
 		Mutants: []Mutant{
+			{Name: "refutation-without-witness", File: "serf/serf.go", Func: "func (s *Serf) handleNodeLeaveIntent(", Old: "\ts.clock.Witness(leaveMsg.LTime)\n", New: "", Expect: "R7"},
 			{Name: "rename-locals", Equivalent: true, Regexp: true, File: "serf/serf.go", Func: "func (s *Serf) handleNodeLeaveIntent(", Old: `\b(member|ok|state)\b`, New: "${1}Renamed"},
 			{Name: "leave-guard-lt", File: "serf/serf.go", Func: "func (s *Serf) handleNodeLeaveIntent(", Old: "if leaveMsg.LTime <= member.statusLTime {", New: "if leaveMsg.LTime < member.statusLTime {", Expect: "R2"},
 			{Name: "join-guard-lt", File: "serf/serf.go", Func: "func (s *Serf) handleNodeJoinIntent(", Old: "if joinMsg.LTime <= member.statusLTime {", New: "if joinMsg.LTime < member.statusLTime {", Expect: "R2"},
@@ -62,6 +63,7 @@ func init() {
 		Explain: "Decides C03's structural clauses on all paths of the leave-intent handler: the refutation branch (claim about the local node while alive) is taken before any status/time write or prune; on it a join is broadcast whose time is a clock read dominated by a witness of the claim's time on the same clock (so, with C19's witness post-condition, strictly greater than the claim); the only conditions leading to the refutation are 'member known' and 'claim newer'; broadcastJoin applies and enqueues exactly that join. Not covered: memberlist never changing the local member's status by itself.",
 		Run:     runC03,
 		Mutants: []Mutant{
+			{Name: "witness-gives-up-after-one-try", File: "serf/lamport.go", Func: "func (l *LamportClock) Witness(", Old: "WITNESS:\n", New: "", Old2: "\t\tgoto WITNESS\n", New2: "\t\treturn\n", Expect: "R5"},
 			{Name: "no-witness", File: "serf/serf.go", Func: "func (s *Serf) handleNodeLeaveIntent(", Old: "\ts.clock.Witness(leaveMsg.LTime)\n", New: "", Expect: "R2"},
 			{Name: "refute-after-mutation", File: "serf/serf.go", Func: "func (s *Serf) handleNodeLeaveIntent(", Old: "\t// Refute us leaving if we are in the alive state\n", New: "\tmember.statusLTime = leaveMsg.LTime\n", Expect: "R1"},
 			{Name: "drop-alive-test", File: "serf/serf.go", Func: "func (s *Serf) handleNodeLeaveIntent(", Old: "leaveMsg.Node == s.config.NodeName && state == SerfAlive", New: "leaveMsg.Node == s.config.NodeName && state == SerfAlive && !leaveMsg.Prune", Expect: "R"},
@@ -76,6 +78,7 @@ func init() {
 		Explain: "Decides C04 structurally: in each of the four handlers whose result feeds the rebroadcast decision, every path returning a possibly-true result passes the handler's 'mark' (status-time store / strictly-newer intent upsert / append to the slot's event list / append of the query id), the message then takes the already-seen path (C02.R2, and the slot-time/duplicate tests here), the retention window is exactly one buffer length so two retained times never share a slot, NotifyMsg enqueues only when a handler returned true, and MergeRemoteState never uses a handler result and reaches QueueBroadcast only through the refutation join. Hence a retained message is rebroadcast at most once.",
 		Run:     runC04,
 		Mutants: []Mutant{
+			{Name: "mark-after-lock-upgrade", File: "serf/serf.go", Func: "func (s *Serf) handleUserEvent(", Old: "\t// Add to recent events\n", New: "\t// Add to recent events\n\ts.eventLock.Unlock()\n\ts.eventLock.Lock()\n", Expect: "R4"},
 			{Name: "upsert-tie-replaces", File: "serf/serf.go", Func: "func upsertIntent(", Old: "!ok || ltime > intent.LTime", New: "!ok || ltime > intent.LTime || (ltime == intent.LTime && itype != intent.Type)", Expect: "R1|upsertIntent:strictly-newer"},
 			{Name: "leave-mark-only-on-transition", File: "serf/serf.go", Func: "func (s *Serf) handleNodeLeaveIntent(", Old: "\tmember.statusLTime = leaveMsg.LTime\n", New: "\tif member.Status == StatusAlive || member.Status == StatusFailed {\n\t\tmember.statusLTime = leaveMsg.LTime\n\t}\n", Expect: "R1"},
 			{Name: "userevent-dup-returns-true", File: "serf/serf.go", Func: "func (s *Serf) handleUserEvent(", Old: "\t\t\tif previous.Equals(&userEvent) {\n\t\t\t\treturn false", New: "\t\t\tif previous.Equals(&userEvent) {\n\t\t\t\treturn true", Expect: "R1"},
@@ -101,6 +104,21 @@ func runC02(c *an.Ctx) {
 	c.Rule("R6 push/pull: synthetic leave time = StatusLTimes[name]+c, c>=1; synthetic join time = synced status time; both go through the two handlers")
 	leave, join := intentHandlers(c, "R1")
 	locks := an.NewLocks(c.P)
+	// a running member stays alive everywhere only if its refutation of a leave claim wins at the other
+	// members: it must carry a time above the claim's (shared with C03.R2 and, through it, C19's Witness)
+	c.Rule("R7 (shared with C03/C19) the refuting join is sent with a clock value read after the claim's time was witnessed, and Witness really leaves the clock above that time")
+	sub3 := an.NewCtx(c.P, "C03", c.Tier)
+	runC03(sub3)
+	n7 := 0
+	for _, o := range sub3.Obs {
+		if o.Rule == "R2" || o.Rule == "R5" {
+			o.Key = "R7|C03:" + o.Key
+			o.Rule = "R7"
+			c.Obs = append(c.Obs, o)
+			n7++
+		}
+	}
+	c.Floor("R7", "refutation-time obligations", n7, 3)
 
 	// R1
 	acc := an.FieldAccesses(c.P.Funcs, "memberState", "statusLTime")
@@ -283,6 +301,20 @@ func runC03(c *an.Ctx) {
 	c.Rule("R2 refutation: go broadcastJoin(clock.Time()) dominated by clock.Witness(msg.LTime) on the same clock; result false")
 	c.Rule("R3 broadcastJoin builds messageJoin{LTime: arg, Node: self}, applies it locally and enqueues it (must-pass both)")
 	c.Rule("R4 the necessary conditions of the refutation are exactly: member known, claim newer, about self, state alive")
+	// the refutation is only "strictly newer" if witnessing the claim's time really lifts the clock above it
+	c.Rule("R5 (shared with C19) Witness returns only when the clock exceeds the witnessed value (a failed compare-and-swap is retried from a fresh load)")
+	sub19 := an.NewCtx(c.P, "C19", c.Tier)
+	runC19(sub19)
+	n5 := 0
+	for _, o := range sub19.Obs {
+		if o.Rule == "R2" {
+			o.Key = "R5|C19:" + o.Key
+			o.Rule = "R5"
+			c.Obs = append(c.Obs, o)
+			n5++
+		}
+	}
+	c.Floor("R5", "Witness obligations", n5, 3)
 	leave, _ := intentHandlers(c, "R1")
 	if leave == nil {
 		return
@@ -575,6 +607,27 @@ func runC04(c *an.Ctx) {
 	leave, join := intentHandlers(c, "R1")
 	ue := sm(c, "R1", "Serf", "handleUserEvent")
 	q := sm(c, "R1", "Serf", "handleQuery")
+	// a mark only stops the second rebroadcast if "not seen yet" was decided in the critical section that
+	// writes it: two deliveries that both pass the test before either marks are both rebroadcast (shared
+	// with C05.R3 / C08.R3)
+	c.Rule("R4 (shared with C05/C08) the duplicate search and the mark happen in one write section of the handler's lock")
+	n4 := 0
+	for _, sh := range []struct {
+		id  string
+		run func(*an.Ctx)
+	}{{"C05", runC05}, {"C08", runC08}} {
+		sub := an.NewCtx(c.P, sh.id, c.Tier)
+		sh.run(sub)
+		for _, o := range sub.Obs {
+			if o.Rule == "R3" && strings.Contains(o.Key, ":mark:") {
+				o.Key = "R4|" + sh.id + ":" + o.Key
+				o.Rule = "R4"
+				c.Obs = append(c.Obs, o)
+				n4++
+			}
+		}
+	}
+	c.Floor("R4", "mark-section obligations of the two message handlers", n4, 4)
 
 	mark := func(h *ssa.Function, isMark func(ssa.Instruction) bool, what string) {
 		if h == nil {
